@@ -359,6 +359,12 @@ func (maw MatrixAdjustmentWith) MarshalYAML() (any, error) {
 	if _, has := maw[""]; has && len(maw) == 1 {
 		return maw[""], nil
 	}
+	if maw == nil {
+		// An adjustment written without a with. A nil map is {} in YAML but
+		// null in JSON, and UnmarshalOrdered does not accept null; marshal
+		// it as an empty map in both.
+		return map[string]string{}, nil
+	}
 	return map[string]string(maw), nil
 }
 
